@@ -10,8 +10,8 @@ from common import hx
 
 FILES = ["gen/Gen_tensors.v", "Model_voigt.v", "Proofs_tensors_alg.v"] + \
         [f"Proofs_tensors_rot{i}.v" for i in range(9)] + \
-        ["Proofs_tensors_rot.v", "Proofs_tensors_maps.v", "Inst_tensors.v", "Proofs_voigt.v",
-         "Entry_tensors.v", "Extract_tensors.v"]
+        ["Proofs_tensors_rot.v", "Proofs_tensors_maps.v", "Proofs_tensors_proj.v", "Inst_tensors.v", "Proofs_voigt.v",
+         "Model_decomp.v", "Proofs_decomp.v", "Proofs_voigt2.v", "Entry_tensors.v", "Extract_tensors.v"]
 PROP = "Properties/C10.v"
 
 OL, EN = 0, 1
